@@ -338,10 +338,10 @@ fn nesting_depth(line: &str) -> usize {
     let mut unary_run = 0usize;
     let mut operators = 0usize;
     let mut max = 0usize;
-    let mut previous = ' ';
     // closing quote of string or char which is in progress
     let mut quote: Option<char> = None;
-    for c in line.chars() {
+    let mut chars = line.chars().peekable();
+    while let Some(c) = chars.next() {
         if let Some(q) = quote {
             if c == q {
                 quote = None;
@@ -351,7 +351,8 @@ fn nesting_depth(line: &str) -> usize {
         match c {
             '"' | '\'' => quote = Some(c),
             ';' => break,
-            '/' | '*' if previous == '/' => break,
+            // comment begins here: its first character isn't operator of division
+            '/' if chars.peek() == Some(&'/') || chars.peek() == Some(&'*') => break,
             '(' => {
                 depth += 1;
                 unary_run = 0;
@@ -376,7 +377,6 @@ fn nesting_depth(line: &str) -> usize {
             _ => unary_run = 0,
         }
         max = max.max(depth + unary_run).max(operators);
-        previous = c;
     }
     max
 }
